@@ -6,7 +6,13 @@ agree : the reader model (SaModel/Read/Reader.lean, `Fixes.all`) reproduces cons
 spec C17 (independent of the reader model): no panic, and an `Ok` result is either what the Arrow reading
 rules (`Spec.decode`) assign to that slot of the view *as it stands* (then nothing foreign can have been
 returned: `deserialize_any` results are compared with `toD` of the decoded value), or it equals what the
-uncorrupted view gives for the same read (the corruption was not touched). -/
+uncorrupted view gives for the same read (the corruption was not touched).  The second escape is classified with the
+footprint relation of `SaModel.Props.C17.untouched_ok`: tag `untouched-justified` when `touchEq ty base view idx` holds
+(the corrupted view agrees with the base view on everything the read looks at, so by the theorem the result HAS to be
+the base result), `untouched-coincidence` when the results are equal although the footprint differs (possible
+legitimately: e.g. a corrupted offset pair that designates equal bytes) — both pass.
+Correspondence also covers the theorem itself: where `touchEq` holds, the implementation's outcome on the corrupted
+view must be its outcome on the base view (same class, same value), for every read, Ok or not. -/
 namespace Driver.Suites.Corrupt
 open Lean Driver SaModel SaModel.Read
 
@@ -20,6 +26,10 @@ def handle (j : Json) : Except String Verdict := do
   let impls := (← getArr j "impl").toList
   let baseImpls := (← getArr j "base_impl").toList
   let rec_ := record fm col
+  let baseRec ← (do
+    match getOpt j "base" with
+    | some b => pure (some (record fm (← arrOfJson b)))
+    | none => pure none : Except String (Option Arr))
   let mctor := new Fixes.all rec_
   let ccls := implCls ctor
   let kind := arrKind col
@@ -43,6 +53,25 @@ def handle (j : Json) : Except String Verdict := do
   for (r, impl) in reads.zip impls do
     let m := modelRead Fixes.all fm col r
     let icls := if isNoneItem impl then "none" else implCls impl
+    -- the footprint of this read is the same in the base view and in the corrupted view (`untouched_ok`)
+    let fpEq := match baseRec with
+      | none => false
+      | some b =>
+        if r.bulk then
+          (match b with
+           | .struct blen _ _ => blen == vlen col && blen ≤ 4096 && (List.range blen).all fun i => touchEq r.ty b rec_ i
+           | _ => false)
+        else touchEq r.ty b rec_ r.idx
+    if fpEq then
+      tags := "footprint-equal" :: tags
+      match baseImpls[k]? with
+      | none => pure ()
+      | some bimpl =>
+        let bcls := if isNoneItem bimpl then "none" else implCls bimpl
+        if bcls != icls || (icls == "ok" && bimpl != impl) then
+          return { agree := false, spec := [("C17", "pass"), ("C16", "pass")],
+                   sig := s!"C17/disagree/footprint-equal-result-differs/{fam}/{targetKind r.ty}", tags := tags,
+                   why := s!"read #{k} (idx {r.idx}, {targetKind r.ty}): the corrupted view agrees with the base view on everything this read looks at (touchEq, theorem untouched_ok: the model's results are equal) but the implementation's outcomes differ: base {bimpl.compress.take 160}, corrupted {impl.compress.take 160}" }
     -- specification predicate
     if icls == "panic" then
       if modelIsOpaqueOk m then
@@ -64,6 +93,9 @@ def handle (j : Json) : Except String Verdict := do
         | .error _ => false
       let untouched := baseImpls.getD k Json.null == impl
       if untouched then nUntouched := nUntouched + 1
+      -- the escape "equals the read on the uncorrupted view" is used: justified by the theorem, or a coincidence
+      if !consistent && untouched then
+        tags := (if fpEq then "untouched-justified" else "untouched-coincidence") :: tags
       -- an `Ok` that had to visit a slot beyond the length of the array it belongs to (independent of what the
       -- uncorrupted view would have given there: the elements come from outside the ranges the view designates)
       if !consistent && !r.bulk && !(touchOK r.ty rec_ r.idx) then
